@@ -111,8 +111,15 @@ package runtimev2
 //@ ownensures i < len(params) && i < len(expr.ParamNormalized) && !old(params[i].Variable) && old(expr.ParamNormalized[i]) != nil ==> ncalls(RunExpr) == 1 && callarg(RunExpr, 0, 1) == old(expr.ParamNormalized[i])
 //@ ownensures i < len(params) && i < len(expr.ParamNormalized) && !old(params[i].Variable) && old(expr.ParamNormalized[i]) == nil ==> ncalls(RunExpr) == 0
 //@ ownensures i < len(params) && i < len(expr.ParamNormalized) && old(params[i].Variable) ==> (forall k int :: 0 <= k && tomath(k) < ncalls(RunExpr) && i + k < len(expr.ParamNormalized) ==> callarg(RunExpr, tomath(k), 1) == old(expr.ParamNormalized[i + k]))
+// a variadic parameter receives a list made for this call - one element per remaining argument, in order, never
+// storage shared with another call (evaluating an argument may itself bind a variadic parameter) - whose element
+// added last is the value the last argument left in the register
+//@ ownensures i < len(params) && i < len(expr.ParamNormalized) && old(params[i].Variable) && old(expr.ParamNormalized[i]) != nil && result1 == nil ==> typeis(result0, []any) && fresh(result0.([]any)) && tomath(len(result0.([]any))) == ncalls(RunExpr) && ncalls(RunExpr) == tomath(len(expr.ParamNormalized) - i)
+//@ ownensures i < len(params) && i < len(expr.ParamNormalized) && old(params[i].Variable) && old(expr.ParamNormalized[i]) != nil && result1 == nil ==> ncalls((*PlReg).GetRet) == ncalls(RunExpr) && result0.([]any)[len(result0.([]any)) - 1] == callres((*PlReg).GetRet, ncalls(RunExpr) - 1, 0).V
 //@ loop 1
 //@ invariant[C19] ncalls(RunExpr) == tomath(rangeindex) + 1 && i >= 0 && i < len(expr.ParamNormalized)
+//@ invariant[C19] (cap(ret) == 0 || fresh(ret)) && tomath(len(ret)) == ncalls(RunExpr) && ncalls((*PlReg).GetRet) == ncalls(RunExpr)
+//@ invariant[C19] len(ret) > 0 ==> ret[len(ret) - 1] == callres((*PlReg).GetRet, ncalls(RunExpr) - 1, 0).V
 //@ invariant[C19] forall k int :: 0 <= k && tomath(k) < ncalls(RunExpr) && i + k < len(expr.ParamNormalized) ==> callarg(RunExpr, tomath(k), 1) == old(expr.ParamNormalized[i + k])
 
 //@ func GetParamInt
